@@ -39,12 +39,12 @@ Definition is_final (p : phase) : bool :=
 Definition id_in (l : list pod) (p : pod) : bool := has_pod (p_task p) (p_idx p) l.
 Definition ids_subset (a b : list pod) : bool := forallb (id_in b) a.
 
-Definition may_resume (sp : spec) (r : req) : bool :=
-  match r_action r with
-  | Some a => action_beq a AResume
-  | None => existsb (fun p => action_beq (pl_action p) AResume)
-                    (s_policies sp ++ flat_map t_policies (s_tasks sp))
-  end.
+(* may this step take the job out of Aborted?  For a request: exactly when applyPolicies on the cached job
+   answers ResumeJob.  For an expired delayed action ([exact = false]; the law is handed no request): when
+   some policy of the job has the action ResumeJob *)
+Definition may_resume (exact : bool) (sp : spec) (vst : status) (r : req) : bool :=
+  if exact then action_beq (apply_policies sp vst r) AResume
+  else existsb (fun p => action_beq (pl_action p) AResume) (s_policies sp ++ flat_map t_policies (s_tasks sp)).
 
 Definition init_status (sp : spec) (s : status) : status :=
   mkStatus PhPending (st_retry s) (st_version s) (s_min sp) (st_cnt s) (st_term s) (st_tsc s) (st_tsc_nil s) (st_rundur s).
@@ -52,7 +52,7 @@ Definition init_status (sp : spec) (s : status) : status :=
 (* lifecycle laws of one processed request (everything except the counters).
    Transitions are judged on the job status the controller holds in its cache
    (what it acts upon); the API server's copy either stays or becomes that. *)
-Definition law_step (sp : spec) (r : req) (b a : obs) : bool :=
+Definition law_step (exact : bool) (sp : spec) (r : req) (b a : obs) : bool :=
   let pb := st_phase (o_vst b) in let pa := st_phase (o_vst a) in
   let rb := st_retry (o_vst b) in let ra := st_retry (o_vst a) in
   (* transitions *)
@@ -60,7 +60,7 @@ Definition law_step (sp : spec) (r : req) (b a : obs) : bool :=
   (* final phases: no phase change, no pod created *)
   implb (is_final pb) (phase_beq pa pb && ids_subset (o_pods a) (o_pods b)) &&
   (* Aborted is left only by a resume, into Restarting *)
-  implb (phase_beq pb PhAborted && negb (phase_beq pa PhAborted)) (phase_beq pa PhRestarting && may_resume sp r) &&
+  implb (phase_beq pb PhAborted && negb (phase_beq pa PhAborted)) (phase_beq pa PhRestarting && may_resume exact sp (o_vst b) r) &&
   (* retry count: +1 exactly on entering Restarting *)
   (if phase_beq pa PhRestarting && negb (phase_beq pb PhRestarting) then Z.eqb ra (rb + 1) else Z.eqb ra rb) &&
   (* maxRetry *)
